@@ -351,8 +351,9 @@ CHECKS = {
              "canonicalize_hostname_shortcut_partial (simple values that is_ipv4 does not claim are what the hostname state on a "
              "special dummy URL returns; ACE labels under an explicit hypothesis on to_ascii), canonicalize_protocol_is_standard_partial "
              "with protocolUrl_scheme (for every value shaped like a scheme, parse(value + '://dummy.test') has that scheme in lower case, "
-             "whatever IDNA answers) and protocol_slow_route (C01's aggregator parser theorem). L1: harness `patcanon` calls the "
-             "eleven real callbacks directly, also under small configured maximum lengths, and compares with driver `pat.canon` "
+             "whatever IDNA answers) and protocol_slow_route (C01's aggregator parser theorem); pattern_helpers_are_standard "
+             "(escape_pattern_string, escape_regexp_string, process_base_url_string, is_ipv6_address, is_absolute_pathname). L1: harness "
+             "`patcanon` calls the eleven real callbacks and the five helpers directly, also under small configured maximum lengths, and compares with driver `pat.canon` "
              "(real IDNA answers as hints). On the "
              "implementation: for literal values of every component (alone, combined, with baseURL, and as constructor strings "
              "assembled from literal parts) construction fails iff "
